@@ -428,6 +428,12 @@ def meta_scenarios():
 
 
 # --------------------------------------------------------------------------- one-step (inductive) agreement
+class ShapeNotApplicable(Unsupported):
+    """The one-iteration rules isolate the body of the event loop of write_track / read_track.  A function written
+    differently (state in a helper object, no loop of its own) has no such body: the step rules do not apply to it and the
+    whole-track scenarios alone decide (they cover every event kind with running status kept and broken)."""
+
+
 def _first_loop(fn_node, kinds):
     import ast
     for st in fn_node.body:
@@ -445,14 +451,14 @@ def writer_step(ctx, ai, ev, running):
     wt = ctx.fn(ctx.p.func(MF, 'write_track'))
     loop = _first_loop(wt.node, (ast.For,))
     if loop is None or not isinstance(loop.target, ast.Name):
-        raise AnalysisError('write_track has no message loop')
+        raise ShapeNotApplicable('write_track has no message loop of its own')
     names = {n.id for n in ast.walk(loop) if isinstance(n, ast.Name)}
     data_names = [t.id for st in wt.node.body if isinstance(st, ast.Assign) for t in st.targets
                   if isinstance(t, ast.Name) and isinstance(st.value, ast.Call) and getattr(st.value.func, 'id', '') == 'bytearray']
     rs_names = [t.id for st in wt.node.body if isinstance(st, ast.Assign) for t in st.targets
                 if isinstance(t, ast.Name) and isinstance(st.value, ast.Constant) and st.value.value is None]
     if len(data_names) != 1 or len(rs_names) != 1:
-        raise Unsupported('write_track: cannot identify the byte buffer and the running status variable')
+        raise ShapeNotApplicable('write_track: cannot identify the byte buffer and the running status variable')
     dn, rn = data_names[0], rs_names[0]
     holder = {}
 
@@ -472,13 +478,13 @@ def reader_step(ctx, ai, items, last_status):
     rt = ctx.fn(ctx.p.func(MF, 'read_track'))
     loop = _first_loop(rt.node, (ast.While,))
     if loop is None:
-        raise AnalysisError('read_track has no event loop')
+        raise ShapeNotApplicable('read_track has no event loop of its own')
     ls_names = [t.id for st in rt.node.body if isinstance(st, ast.Assign) for t in st.targets
                 if isinstance(t, ast.Name) and isinstance(st.value, ast.Constant) and st.value.value is None]
     tr_names = [t.id for st in rt.node.body if isinstance(st, ast.Assign) for t in st.targets
                 if isinstance(t, ast.Name) and isinstance(st.value, ast.Call) and getattr(st.value.func, 'id', '') == 'MidiTrack']
     if len(ls_names) != 1 or len(tr_names) != 1:
-        raise Unsupported('read_track: cannot identify the running status variable and the track')
+        raise ShapeNotApplicable('read_track: cannot identify the running status variable and the track')
     ln, tn = ls_names[0], tr_names[0]
 
     def thunk():
@@ -518,6 +524,7 @@ def inductive_agreement(ctx, ai, rule_w, rule_r):
     reference bytes and the right post-state; for every reader pre-state consistent with the invariant
     `writer.running == S  =>  reader.last_status == S` the reader step returns the event and re-establishes it."""
     n = 0
+    skipped = {'writer': None, 'reader': None}
     for label, ev, st in step_events():
         other = 0xb5 if label != 'control_change' else 0x95           # an unrelated channel status (different type nibble)
         pres = [('none', None), ('other', other)]
@@ -525,7 +532,14 @@ def inductive_agreement(ctx, ai, rule_w, rule_r):
             pres.append(('same', st))
         for pname, running in pres:
             n += 1
-            wt, outs = writer_step(ctx, ai, ev, running)
+            if skipped['writer']:
+                break
+            try:
+                wt, outs = writer_step(ctx, ai, ev, running)
+            except ShapeNotApplicable as e:
+                skipped['writer'] = str(e)
+                ctx.notes.append(f'{rule_w}: one-step rule not applicable ({e}); decided by the whole-track scenarios only')
+                break
             w = ctx.where(wt)
             inst = f'step[{label}, running={pname}]'
             cons = f'{wt.qname}::step::{label if st is None else "channel"}::{pname}'
@@ -562,7 +576,14 @@ def inductive_agreement(ctx, ai, rule_w, rule_r):
             else:
                 rpres = [('none', None), ('other', other), ('sysex', 0xf0), ('common', 0xf3)] if pname == 'none' else [('other', other)]
             for rname, last in rpres:
-                rt, routs = reader_step(ctx, ai, want, last)
+                if skipped['reader']:
+                    break
+                try:
+                    rt, routs = reader_step(ctx, ai, want, last)
+                except ShapeNotApplicable as e:
+                    skipped['reader'] = str(e)
+                    ctx.notes.append(f'{rule_r}: one-step rule not applicable ({e}); decided by the whole-track scenarios only')
+                    break
                 wr = ctx.where(rt)
                 rinst = f'step[{label}, running={pname}, reader last_status={rname}]'
                 rcons = f'{rt.qname}::step::{label if st is None else "channel"}::{pname}/{rname}'
@@ -579,4 +600,6 @@ def inductive_agreement(ctx, ai, rule_w, rule_r):
                 if wpost is not None:
                     ctx.require(rpost is not None and wire.value_equal(rpost, wpost), rule_r, rinst + '.invariant', wr,
                                 f'writer keeps running status {wpost!r} but the reader remembers {rpost!r}', construct=rcons + '::invariant')
-    ctx.floor(rule_w + '-steps', n, 40)
+    if not skipped['writer']:
+        ctx.floor(rule_w + '-steps', n, 40)
+    ctx.extra.setdefault('one_step_rules', {}).update({rule_w: skipped['writer'] or 'applied', rule_r: skipped['reader'] or 'applied'})
